@@ -239,6 +239,19 @@ CHECKS["C18"] = dict(
     technique="path exploration (get/put typestate, ordering typestate) + argument coverage + control dependence / must-pass + errno facts",
     design="3/C18")
 
+
+CHECKS["C02"] = dict(
+    text="Decides structural necessary conditions only; the prefix relation between the two ends' byte strings over all schedules is a relation on run-time "
+         "histories and is not decided. Decided on all paths of the btcp/btls data ops: (R1) exactly one lower-layer call per op, given the caller's buffer and "
+         "length/capacity unchanged, and a positive return value is that call's count (so 1..len resp. <= capacity follow from the kernel/OpenSSL contract); "
+         "(R2) every SSL object is switched to PARTIAL_WRITE|ACCEPT_MOVING_WRITE_BUFFER between SSL_new and the handshake; (R3) no send op answers -1/EAGAIN on "
+         "a path where a callee that captures its input on failure (effect table: SSL_write) was given the caller's bytes - known finding K4, replayed; (R5) the "
+         "custom BIO clears its retry flags before each lower-layer call, maps EAGAIN to the retry flag of its direction and a 0 read to EOF; (R6) the blocking "
+         "byte-stream loop recomputes pointer and length from the progress counter. Counters are C17's.",
+    note=TRUSTED + " Effect table: send(2) takes nothing when it fails; SSL_write returning <= 0 with WANT_* keeps the record for the retry.",
+    technique="argument-identity checks + path exploration with a capture-effect table and errno facts + typestate + control dependence",
+    design="3/C02")
+
 NOT_APPLICABLE = {}
 
 
